@@ -73,8 +73,8 @@ def make_market(days, spec):
 
 def write_market(directory, market):
     for sym, rows in market.items():
-        mk.write_csv(directory, sym, [(d, None if o is None else float(o), None if c is None else float(c),
-                                       None if c is None else float(c)) for d, o, c in rows])
+        mk.write_csv(directory, sym, [(r[0], None if r[1] is None else float(r[1]), None if r[2] is None else float(r[2]),
+                                       None if r[2] is None else float(r[2])) + tuple(r[3:4]) for r in rows])
 
 
 def load_handler(directory, market, universe=None):
@@ -89,7 +89,8 @@ def price_at(market, sym, t):
     """reference pad lookup: last observation (open 14:30 / close 21:00) at or before t; None if none.
     A missing cell is replaced by the previous observation."""
     ans = None
-    for d, o, c in market[sym]:
+    for row in market[sym]:
+        d, o, c = row[:3]
         for when, v in ((rm.utc(d, 14, 30), o), (rm.utc(d, 21, 0), c)):
             if when <= t:
                 if v is not None:
